@@ -22,9 +22,9 @@ func rc(b []byte) io.ReadCloser { return io.NopCloser(bytes.NewReader(b)) }
 // clip renders a feed inside a one-line witness.
 func clip(b []byte) string {
 	const max = 3000
-	s := strings.ReplaceAll(string(b), "\n", " ")
+	s := strings.ToValidUTF8(strings.ReplaceAll(string(b), "\n", " "), "?")
 	if len(s) > max {
-		return s[:max] + "…(" + strconv.Itoa(len(b)) + " bytes)"
+		return strings.ToValidUTF8(s[:max], "") + "…(" + strconv.Itoa(len(b)) + " bytes)"
 	}
 	return s
 }
@@ -97,7 +97,7 @@ func renderSecdb(rel, repo string, pkgs []secdbPkg) []byte {
 
 func runSecdb(r *hx.Run, g *gen, cfg hx.Config) {
 	var m alpine.Matcher
-	for it, n := 0, cfg.N(150, 6000); it < n && !r.Stop(); it++ {
+	for it, n := 0, cfg.N(800, 6000); it < n && !r.Stop(); it++ {
 		edge := g.r.Chance(1, 8)
 		maj, min := 3, 3+g.r.Intn(18)
 		repo := g.r.Pick("main", "community")
@@ -261,7 +261,7 @@ func runDebian(r *hx.Run, g *gen, cfg hx.Config) {
 	}
 	p := debian.ParserForC14()
 	var m debian.Matcher
-	for it, n := 0, cfg.N(150, 6000); it < n && !r.Stop(); it++ {
+	for it, n := 0, cfg.N(800, 6000); it < n && !r.Stop(); it++ {
 		data := g.debian()
 		feed := renderDebian(data)
 		l := (&line{}).tok("debian").n(len(debKnown))
@@ -398,7 +398,7 @@ func runAws(r *hx.Run, g *gen, cfg hx.Config) {
 		rel  aws.Release
 		dist string
 	}{{aws.AmazonLinux1, "amzn|2018.03|"}, {aws.AmazonLinux2, "amzn|2|"}, {aws.AmazonLinux2023, "amzn|2023|"}}
-	for it, n := 0, cfg.N(150, 6000); it < n && !r.Stop(); it++ {
+	for it, n := 0, cfg.N(800, 6000); it < n && !r.Stop(); it++ {
 		rel := rels[g.r.Intn(len(rels))]
 		u, _ := aws.NewUpdater(rel.rel)
 		ups := g.alas()
